@@ -151,6 +151,16 @@ check("C19", "runtime monitoring: post-condition and exception-path wrapper on D
       "Trusted: 'drawable' = serialisable drawsvg.Drawing / (Figure, Axes); pixel content is not judged.",
       "DESIGN.md 4 C19")
 
+check("C14", "runtime monitoring: post-condition wrapper on Reck.map (unitary reproduced, adjacency and component kinds, heralds, "
+      "phases in [0,2pi), same-seed re-run, sub-unitarity) and on every draw of the Constant/Gaussian/TopHat "
+      "distributions, over seeded structured unitaries and error models",
+      "Held on the unitaries (Haar, identity, permutations, phased permutations, block-diagonal, near-permutations, DFT, "
+      "orthogonal, heralded) and error models explored: default model reproduces U to 1e-8 n with adjacent BS/PS only and "
+      "phases in [0,2pi); noisy models draw within declared bounds, are seed-reproducible and give valid sub-unitary "
+      "circuits.",
+      "Trusted: numpy linear algebra; both nulling branches of the decomposition observed via a hook on bs_matrix.",
+      "DESIGN.md 4 C14")
+
 NOT_APPLICABLE = []
 _EXPLICIT_NA = {}
 for line in open("/verif/properties.jsonl"):
